@@ -94,6 +94,11 @@ func (r *Run) Fail(kind string, format string, args ...any) {
 	r.T.Logf("VERIF-DETAIL kind=%s: %s", kind, fmt.Sprintf(format, args...))
 	if os.Getenv("VERIF_DEBUG") != "" { // every failing run, not only rapid's final logged one (for chasing flakiness in the harness)
 		fmt.Fprintf(os.Stderr, "VERIF-DEBUG kind=%s: %.1500s\n", kind, fmt.Sprintf(format, args...))
+	} else if !firstFailShown {
+		// the first failing run of the process, before any shrinking: should rapid later be unable to reproduce the
+		// failure (non-determinism in the harness), this line is all that is left of it
+		firstFailShown = true
+		fmt.Fprintf(os.Stderr, "VERIF-FIRSTFAIL kind=%s: %.1500s\n", kind, fmt.Sprintf(format, args...))
 	}
 	r.T.Fatalf("VERIF-FAIL kind=%s", kind)
 }
@@ -125,6 +130,8 @@ type stats struct {
 	RaceBuild    bool           `json:"race_build"`
 	Components   any            `json:"components,omitempty"`
 }
+
+var firstFailShown bool
 
 const digestCap = 400000
 
